@@ -86,6 +86,10 @@ pub struct Router;
 
 impl Observer for Router {
     fn on_event(&self, ev: &Event) {
+        if matches!(ev, Event::LockWillAcquire { .. } | Event::LockAcquired { .. } | Event::LockReleased { .. }) {
+            crate::props::c09_locks::record(ev);
+            return;
+        }
         let sched = match CUR.with(|c| c.borrow().clone()) {
             Some(s) => s,
             None => return,
